@@ -409,7 +409,7 @@ theorem authLiteS_card (C : Cipher) (hC : BlockCipher C) (forget : Bool) (c : Ca
     (hrcm2.trans hrcm1) hrc hrcB hsk hskl rfl
   refine ⟨sk, tr3, hsk, ?_⟩
   unfold afterAuth at hr ⊢
-  unfold authLiteS
+  unfold authLiteS extAuthS
   rw [bind_of_ok ha]
   simp only [Bool.not_true, Bool.false_eq_true, if_false]
   rw [bind_of_ok (setAuthed_apply false _), bind_of_ok hw, bind_of_ok hr]
@@ -820,7 +820,7 @@ theorem protect_then_auth_card (C : Cipher) (hC : BlockCipher C) (forget : Bool)
       = (.ok true, ⟨⟨some ⟨sk, rc0.take 8⟩, true⟩, afterPlain (afterAuth c2 rc0) 0x88 mcF, tr6⟩) := by
     have hi0 : idx ([v0, v1] ++ vrest) 0 = .ok v0 := rfl
     have hi1' : idx ([v0, v1] ++ vrest) 1 = .ok v1 := rfl
-    unfold protectLiteS
+    unfold protectLiteS protectLiteSA protectLiteSB
     simp only [bind_apply, lift_apply, pure_apply, getRd_apply, hpw, hr1, hidx2, hidx5, ne_eq, not_true_eq_false, false_and,
       if_false, hr2, hi0, hi1', hd86, hw3, hw4, ha5, Bool.not_true, Bool.false_eq_true, ← hmcF, hw6]
   have hs1 : step C forget (honest C) idm true (.protect (some p) rp pf rc0) ⟨rd, c, tr⟩
